@@ -380,7 +380,8 @@ def _check_report(ctx, c, reqs, pending, only=None):
             paths.pop()
     else:
         ctx.fail(base_case, f'report cannot be written and parsed back: {rd[2]}', site='srread')
-    model_groups = [srreports.items_of(g) for g in groups]
+    model_groups = [_model_params(g) for g in groups]
+    _check_layout(ctx, c, reqs, pending)
     exhaustive = n <= 2 and c['idx'] % 3 == 0
     for method in ('planar', 'volumetric', 'image'):
         n_kind = sum(1 for g in groups if g['kind'] == method)
@@ -410,7 +411,7 @@ def _check_report(ctx, c, reqs, pending, only=None):
                     got_ids = None
                     if ok:
                         got_ids = [_tracking(s) for s in res[1]]
-                    pending.append((case, ('ok', got_ids) if ok else ('err', res[1]), groups))
+                    pending.append((case, ('ok', got_ids) if ok else ('err', res[1]), groups, 'query'))
                     first = False
                 # ---- oracle
                 if why:
@@ -449,10 +450,95 @@ def _check_report(ctx, c, reqs, pending, only=None):
                         _check_accessors(ctx, dict(case, group=k), s, groups[k], method)
 
 
+def _model_params(g):
+    """construction parameters as sent to the model (numbers as text, tuples as lists)"""
+    def conv(x):
+        if isinstance(x, tuple):
+            return [conv(y) for y in x]
+        if isinstance(x, list):
+            return [conv(y) for y in x]
+        if isinstance(x, dict):
+            return {k: conv(v) for k, v in x.items()}
+        if isinstance(x, float):
+            return str(x)
+        return x
+    return conv(g)
+
+
+def _real_items(group_item):
+    """top-level items of a real group container, read through pydicom attributes only"""
+    def code(seq):
+        return f'{seq[0].CodeValue}|{seq[0].CodingSchemeDesignator}'
+
+    def ref(it):
+        if 'ReferencedSOPSequence' in it:
+            s_ = it.ReferencedSOPSequence[0]
+            return [str(s_.ReferencedSOPClassUID), str(s_.ReferencedSOPInstanceUID)]
+        return None
+    out = []
+    for it in group_item.get('ContentSequence', []):
+        vt = str(it.ValueType)
+        value = ''
+        if vt == 'CODE':
+            value = code(it.ConceptCodeSequence)
+        elif vt == 'UIDREF':
+            value = str(it.UID)
+        elif vt == 'TEXT':
+            value = str(it.TextValue)
+        elif vt == 'NUM':
+            value = str(float(it.MeasuredValueSequence[0].NumericValue))
+        kids = []
+        if vt in ('SCOORD', 'SCOORD3D'):
+            for k in it.get('ContentSequence', []):
+                kids.append({'name': code(k.ConceptNameCodeSequence), 'vt': str(k.ValueType), 'rel': str(k.RelationshipType), 'ref': ref(k)})
+        out.append({'name': code(it.ConceptNameCodeSequence), 'vt': vt, 'rel': str(it.RelationshipType), 'value': value,
+                    'graphic': str(it.GraphicType) if 'GraphicType' in it else '', 'ref': ref(it), 'kids': kids})
+    tid = None
+    if 'ContentTemplateSequence' in group_item:
+        tid = str(group_item.ContentTemplateSequence[0].TemplateIdentifier)
+    return {'template_id': tid, 'items': out}
+
+
+def _check_layout(ctx, c, reqs, pending):
+    """L1: the container the constructors built has the layout the model's `mkGroup` (and the generator's own
+    prediction) give for the construction parameters"""
+    from gen import srreports
+    containers = c['rep']._find_measurement_groups()
+    case0 = {'stream': 'report', 'seed': ctx.seed, 'idx': c['idx']}
+    if len(containers) != len(c['groups']):
+        ctx.fail(case0, f'report holds {len(containers)} measurement groups, constructed with {len(c["groups"])}', site='report/groups')
+        return
+    for k, (cont, g) in enumerate(zip(containers, c['groups'])):
+        real = _real_items(cont)
+        pred = srreports.items_of(g)
+        for it in pred['items']:
+            if it['vt'] == 'NUM':
+                it['value'] = str(float(it['value']))
+        case = dict(case0, group=k, what='layout')
+        ctx.case(path='layout', ref_type=g['ref']['type'], kind=g['kind'] + ('' if g['template'] else '*'))
+        if real != pred:
+            diff = [(a, b) for a, b in itertools.zip_longest(real['items'], pred['items']) if a != b][:2]
+            ctx.fail(case, {'what': 'group container does not hold the items it was constructed with, in constructor order',
+                            'template': (real['template_id'], pred['template_id']), 'first_differences': diff}, site='report/layout')
+        reqs.append(('layout', _model_params(g)))
+        pending.append((case, ('ok', real), c['groups'], 'layout'))
+
+
 def _compare(ctx, pending, answers):
-    for (case, impl, groups), ans in zip(pending, answers):
+    for (case, impl, groups, kind), ans in zip(pending, answers):
         if 'proto_err' in ans:
             ctx.disagree('L0', case, impl, ans, 'model protocol error')
+            continue
+        if kind == 'layout':
+            m = ans.get('ok', {})
+            for it in m.get('items', []):
+                if it['vt'] == 'NUM':
+                    it['value'] = str(float(it['value']))
+            got = {'template_id': m.get('template_id'), 'items': m.get('items')}
+            if got != impl[1]:
+                diff = [(a, b) for a, b in itertools.zip_longest(impl[1]['items'], got['items'] or []) if a != b][:2]
+                ctx.disagree('L1', case, {'template': impl[1]['template_id'], 'diff': diff}, {'template': got['template_id']},
+                             'layout: constructed container vs mkGroup')
             continue
         model = ('ok', ans['ok']) if 'ok' in ans else ('err', ans['err'])
         if impl[0] != model[0]:
@@ -503,7 +589,7 @@ def run(ctx):
             _check_report(ctx, _report_case(ctx, case['idx']), reqs, pending)
     reqs2, pending2 = [], []
     _helpers(ctx, reqs2, pending2)
-    for idx in range(ctx.n(60, 900)):
+    for idx in range(ctx.n(45, 600)):
         res = _call(_report_case, ctx, idx)
         if res[0] != 'ok':
             ctx.fail({'stream': 'report', 'seed': ctx.seed, 'idx': idx}, f'a valid report could not be constructed: {res[2]}',
